@@ -35,12 +35,14 @@
          under different masks - C11_kernel_twin is only up to kcollapse), reads that cut a burst, pairing
          through the delay queue across reads and the clock;
      (c) the skip-repeats event queue (C16) between emitter and handler (hence "up to stutter" in C11_full).
-   The tie of the drained regime to Pipeline.prun is C03's pipeline_tie (proved there for pc_filter = None). *)
+   C11_pipeline_tie_filtered / C11_pipeline_transparent_step tie the drained regime to Pipeline.prun with the
+   watch's class filter (pc_filter): they are C03's pipeline_tie with the filter kept. *)
 Require Import WD.Base.Prelude WD.Base.BStr WD.Model.SubEvents WD.Model.Emitter WD.Model.MaskTable.
 Require Import WD.Model.Fs WD.Model.Reader WD.Model.Contract.
 Require Import WD.Gen.MaskTableGen WD.Proofs.MaskTableProofs WD.Proofs.C11Proofs WD.Proofs.ContractProofs.
 Require Import WD.Proofs.C11KernelProofs WD.Proofs.C11ReaderProofs WD.Proofs.C11TwinProofs WD.Proofs.C11GroupProofs
                WD.Proofs.C11SeqProofs.
+Require Import WD.Model.Pipeline WD.Proofs.C11TieProofs.
 
 (* The full property.  [events F full recursive h] = the events delivered to the handler of a watch
    with event filter F (None = no filter) over the operation history h; [paced] = the pacing condition
@@ -233,6 +235,41 @@ Theorem C11_transparent_sequential : forall F C full,
     = Some (filter (fun e => accepts F (ev_cls e)) evs).
 Proof. exact transparent_from. Qed.
 Print Assumptions C11_transparent_sequential.
+
+(* [run_one (pc_filter P)] is what the Pipeline model delivers for AOp o; ARead (whole queue); ATick delay;
+   AEmit ... from a state whose buffer is idle (C03's pipeline_tie, with the class filter kept). *)
+Theorem C11_pipeline_tie_filtered : forall P s o w1 k1 r1 evs,
+  buffer_idle (p_buf s) -> p_stopped s = false -> k_queue (p_k s) = [] ->
+  (forall id, In id (map fst (p_tbl s)) -> (id < p_next s)%N) ->
+  run_one (pc_filter P) (pc_reader P) (pc_full P) (p_world s) (p_k s) (p_r s) o = Some (w1, k1, r1, evs) ->
+  exists nit s' obs, prun P s (tie_history P s o nit) [] = Done (s', obs) /\
+    p_world s' = w1 /\ p_k s' = k1 /\ p_r s' = r1 /\ p_out s' = p_out s ++ evs.
+Proof. exact pipeline_tie_filtered. Qed.
+Print Assumptions C11_pipeline_tie_filtered.
+
+(* Two Pipeline instances on the same world, an unfiltered watch and a watch with event filter F, idle twin
+   states: after one drained operation the filtered p_out has grown by exactly the accepted part of what the
+   unfiltered p_out has grown by, and the states are twins again. *)
+Theorem C11_pipeline_transparent_step : forall F PU PF sU sF o,
+  pc_filter PU = None -> pc_filter PF = F -> pc_full PF = pc_full PU ->
+  c_mask (pc_reader PU) = WATCHDOG_ALL -> visible F (c_recursive (pc_reader PU)) ->
+  pc_reader PF = with_mask (pc_reader PU) (kmask F (c_recursive (pc_reader PU))) ->
+  p_world sF = p_world sU -> p_r sF = p_r sU ->
+  kw0 WATCHDOG_ALL (kmask F (c_recursive (pc_reader PU))) (p_k sU) (p_k sF) ->
+  buffer_idle (p_buf sU) -> buffer_idle (p_buf sF) -> p_stopped sU = false -> p_stopped sF = false ->
+  (forall id, In id (map fst (p_tbl sU)) -> (id < p_next sU)%N) ->
+  (forall id, In id (map fst (p_tbl sF)) -> (id < p_next sF)%N) ->
+  forall w1 k1 r1 evs,
+  run_one None (pc_reader PU) (pc_full PU) (p_world sU) (p_k sU) (p_r sU) o = Some (w1, k1, r1, evs) ->
+  exists nU sU' obsU nF sF' obsF,
+    prun PU sU (tie_history PU sU o nU) [] = Done (sU', obsU) /\
+    prun PF sF (tie_history PF sF o nF) [] = Done (sF', obsF) /\
+    p_out sU' = p_out sU ++ evs /\
+    p_out sF' = p_out sF ++ filter (fun e => accepts F (ev_cls e)) evs /\
+    p_world sF' = p_world sU' /\ p_r sF' = p_r sU' /\
+    kw0 WATCHDOG_ALL (kmask F (c_recursive (pc_reader PU))) (p_k sU') (p_k sF').
+Proof. exact pipeline_transparent_step. Qed.
+Print Assumptions C11_pipeline_transparent_step.
 
 (* The table of the pinned tree (frozen copy): the table lemma is false.  Finding F6. *)
 Theorem C11_table_refuted_pinned :
